@@ -314,3 +314,59 @@ def gen_config_cases(rng, n):
 
 
 py_checks.GENS["config"] = gen_config_cases
+
+
+# ---------------------------------------------------------------------------------------------
+# random values of the configuration: `JsonRandom` (group "jsonrandom")
+# ---------------------------------------------------------------------------------------------
+from pams.utils.json_random import JsonRandom  # noqa: E402
+
+
+class _FixedPrng:
+    def __init__(self, u, g):
+        self._u, self._g = u, g
+
+    def random(self):
+        return self._u
+
+    def gauss(self, mu, sigma):
+        return self._g
+
+
+FIELDS.update({JsonRandom: ["prng"], _FixedPrng: []})
+
+
+def gen_jsonrandom_cases(rng, n):
+    nums = [0, 1, 2.5, -3, 100, 0.0, 1e-3, 7]
+    for _ in range(n):
+        u = rng.choice([0.0, 0.25, 0.5, 0.999, rng.random()])
+        g = rng.choice([0.0, -1.5, 2.25, rng.uniform(-3, 3)])
+        prng = _FixedPrng(u, g)
+        jr = JsonRandom(prng=prng)
+        r = rng.random()
+        k = rng.choice([0, 1, 1, 2, 2, 3])
+        args = [rng.choice(nums) for _ in range(k)]
+        if r < 0.2:
+            v = args if rng.random() < 0.3 else [rng.choice(nums), rng.choice(nums)]
+        elif r < 0.3:
+            v = rng.choice(nums + [True])
+        elif r < 0.9:
+            kind = rng.choice(["const", "uniform", "normal", "expon", "expon", "uniform", "normal", "gamma"])
+            need = {"const": 1, "uniform": 2, "normal": 2, "expon": 1}.get(kind, 1)
+            if rng.random() < 0.8:
+                args = [rng.choice(nums) for _ in range(need)]
+            v = {kind: rng.choice([args, args, args, args, 3, None])}
+            if rng.random() < 0.08:
+                v["uniform"] = [0, 1]
+                v["const"] = [1]
+        else:
+            v = {}
+        ext = [(prng, "random", [], u)]
+        if isinstance(v, dict) and "normal" in v and isinstance(v["normal"], list) and len(v["normal"]) == 2:
+            ext.append((prng, "gauss", [float(v["normal"][0]), float(v["normal"][1])], g))
+        if isinstance(v, dict) and isinstance(v.get("expon"), list) and len(v["expon"]) == 1 and u == 0.0:
+            continue            # log(0): a ValueError of `math.log`, outside the fragment
+        yield Case("JsonRandom.random", jr.random, [jr, v], ext=ext)
+
+
+py_checks.GENS["jsonrandom"] = gen_jsonrandom_cases
